@@ -261,6 +261,12 @@ def min_angle_deg(verts):
 TOPOLOGIES = ("tri1", "s2x2", "fan3", "fan4", "ring6", "s3x3", "delaunay")
 
 
+def topologies(tier):
+    if tier == "quick":
+        return TOPOLOGIES
+    return ("tri1", "s2x2", "fan3", "fan4", "ring6", "s3x3", "s4x3", "delaunay6", "delaunay7", "delaunay8", "delaunay9")
+
+
 def base_topology(topo, seed):
     if topo == "tri1":
         return np.array([[0.0, 0.0], [1.0, 0.0], [0.0, 1.0]]), np.array([[0, 1, 2]])
@@ -278,8 +284,12 @@ def base_topology(topo, seed):
         return c, np.array([[0, 1, 4], [0, 4, 3], [1, 2, 5], [1, 5, 4], [2, 0, 3], [2, 3, 5]])
     if topo == "s3x3":
         return _structured(3, 3)
+    if topo == "s4x3":
+        return _structured(4, 3, np.array([0.0, 0.5, 1.25, 2.0]), np.array([0.0, 0.4, 1.0]))
     if topo == "delaunay":
         return delaunay_mesh(seed, 6 + seed % 4)
+    if topo.startswith("delaunay"):
+        return delaunay_mesh(seed, int(topo[len("delaunay"):]))
     raise KeyError(topo)
 
 
@@ -332,7 +342,10 @@ def geometries(topo, tier, seed):
         if tier != "quick":
             add("aniso1x10", c0 * np.array([1.0, 10.0]))
             add("graded-rot", _structured(3, 3, g, g * 1.5)[0] @ _rot(5 * math.pi / 7.0).T)
-    elif topo == "delaunay":
+    elif topo == "s4x3":
+        add("graded", c0)
+        add("rot-shear", (c0 @ S.T) @ _rot(6 * math.pi / 7.0).T)
+    elif topo.startswith("delaunay"):
         add("seeded", c0)
         if tier != "quick":
             add("seeded-rot-aniso", (c0 * np.array([1.0, 4.0])) @ _rot(2 * math.pi / 7.0).T)
